@@ -96,6 +96,20 @@ CHECKS = {
              'decoded under V1 and compared with the projection computed on my ASTs (unknown additions dropped, unknown alternative/item absent, following '
              'components intact), V1 encodings are decoded under V2 and compared with the value.',
         note='Cases whose own-version round trip fails are C01 business and skipped (counted); V2 is re-checked for tag distinctness by my tag computation.'),
+    'C11': dict(
+        category='exploration', design_ref='DESIGN.md 4 C11',
+        technique='runtime monitoring: reference-model oracle (independent constraint interpreter on my AST) with single-node perturbations at, inside and outside every bound',
+        text='Valid values (incl. both bounds and out-of-root values of extensible constraints) must pass check_constraints; a value with exactly one '
+             'node pushed just outside one interpreted constraint (range, SIZE, FROM; bounds literal / MIN / MAX / named number / value reference; '
+             'through type references) must raise ConstraintsError on encode and on decode of bytes produced with checking off.',
+        note='Trusts vf/models/constraints.py; named-bit BIT STRING sizes and inherent alphabets are not probed (DESIGN C11).'),
+    'C12': dict(
+        category='exploration', design_ref='DESIGN.md 4 C12',
+        technique='runtime monitoring: exception-class and error-path oracle computed from my AST over single-component corruptions, 8 codecs',
+        text='Each valid value is corrupted in one component (wrong Python type, unknown CHOICE alternative, unknown ENUMERATED value, missing mandatory '
+             'member, constraint violation); encode with checks must raise EncodeError/ConstraintsError whose text starts with the dotted path to that '
+             'component as computed from my AST; well-typed base values must pass the type check.',
+        note='A type-name hop inserted for recursive types is forgiven; base values that a codec cannot encode are skipped for that codec.'),
 }
 
 NOT_YET = 'check under construction in this revision (DESIGN.md section 4); not claimed yet'
